@@ -3,8 +3,9 @@
 (* branch by branch - property C13.                                                                *)
 (*   input     the whole byte stream the transport will deliver (chosen in Init)                   *)
 (*   pos       bytes delivered so far;  rbuf = read_buf;  eof / readable = Flags::EOF / READABLE   *)
-(*   out       items yielded so far (Pending results are not items); done = None or an I/O error   *)
-(*             item was yielded (what happens afterwards is not specified by C13)                  *)
+(*   out       items yielded so far (Pending results are not items); done = None was yielded.  An  *)
+(*             I/O error item does NOT end the stream: the transport is read again by the next     *)
+(*             poll and the frames behind the error still have to come, in order.                  *)
 (* The environment chooses the result of every poll_read: a chunk of every possible length of the  *)
 (* remaining input, Pending (not in two consecutive polls), one I/O error per run, EOF at the end. *)
 (* One poll_next makes several reads: the action chooses them as a script `io` that the call       *)
@@ -112,7 +113,7 @@ PollNext(h) ==
        /\ (h.on => o.io = h.s)
        /\ rbuf' = o.st.rbuf /\ pos' = o.st.pos /\ eof' = o.st.eof /\ readable' = o.st.rd /\ cended' = o.st.ce
        /\ out' = (IF o.res.k = "pending" THEN out ELSE Append(out, o.res))
-       /\ done' = (o.res.k \in {"none", "ioerr"})
+       /\ done' = (o.res.k = "none")
        /\ errUsed' = (errUsed \/ IoHas(o.io, "err"))
        /\ lastPend' = (o.res.k = "pending")
        /\ act' = [op |-> "poll", io |-> o.io, res |-> o.res]
@@ -128,11 +129,12 @@ Norm(items) == IF Codec = "bytes" THEN Concat(items) ELSE items
 IsPrefix(a, b) == Len(a) <= Len(b) /\ a = SubSeq(b, 1, Len(a))
 Yielded == SelectSeq(out, LAMBDA x : x.k \notin {"none", "ioerr"})
 \* the items yielded up to and including None are exactly the whole-stream frames, whatever the script was
-C13_Frames == (done /\ out # <<>> /\ out[Len(out)].k = "none") => (Norm(Yielded) = Norm(WholeStreamFrames(input)) /\ Len(Yielded) = Len(out) - 1)
+NIoErr == Len(SelectSeq(out, LAMBDA x : x.k = "ioerr"))
+C13_Frames == (done /\ out # <<>> /\ out[Len(out)].k = "none") => (Norm(Yielded) = Norm(WholeStreamFrames(input)) /\ Len(Yielded) = Len(out) - 1 - NIoErr)
 \* at any time: nothing lost, duplicated or reordered so far
 C13_Prefix == IsPrefix(Norm(Yielded), Norm(WholeStreamFrames(input)))
-\* None and I/O error items end the run: they appear only last
-C13_TerminalLast == \A i \in 1..(Len(out) - 1) : out[i].k \notin {"none", "ioerr"}
+\* None ends the run: it appears only last (an I/O error item does not end it)
+C13_TerminalLast == \A i \in 1..(Len(out) - 1) : out[i].k # "none"
 \* an I/O error is surfaced where it occurs: every frame completed by the bytes delivered before the failing read has
 \* been yielded before the error item (frames are not reordered around the error, none is held back behind it)
 C13_ErrAfterFrames ==
